@@ -1810,7 +1810,11 @@ func ExecOrderBy(query *Query, current []any) ([]any, error) {
 func (query *Query) exec() (result any, err error) {
 	defer func() {
 		if r := recover(); r != nil {
-			err = r.(error)
+			if e, ok := r.(error); ok {
+				err = e
+			} else {
+				err = fmt.Errorf("%v", r)
+			}
 		}
 	}()
 	if query.dual {
